@@ -18,7 +18,11 @@ ALPHA_CORE = ALPHA_FULL[:6]
 ALPHA_W = [("Define", "x", 1), ("Set", "x", 2), ("Delete", "x", 0), ("DeleteGlobal", "x", 0), ("Copy", "", 0), ("Define", "y", 3)]
 TABS = [{"k": [], "v": []}, {"k": ["x"], "v": [5]}]
 # type definitions and lookups on the same scope (names beginning with "t" live in its type table; a scope without types has no type table yet)
-ALPHA_T = [("Define", "tx", 1), ("Define", "tx", 2), ("Define", "ty", 3), ("Get", "tx", 0), ("Copy", "", 0), ("Define", "x", 1)]
+# "tz" is an alias the scope's external lookup resolves by calling back into the scope for "tx" (a lookup that re-enters the scope it serves): to the
+# specification the call is a lookup of tx
+ALPHA_TZ = [("Define", "tx", 1), ("Define", "ty", 3), ("Get", "tz", 0), ("Get", "tx", 0), ("Copy", "", 0), ("Symbols", "t", 0)]
+def unalias(progs): return [[dict(o, n="tx") if o["n"] == "tz" else o for o in pr] for pr in progs]
+ALPHA_T = [("Define", "tx", 1), ("Define", "tx", 2), ("Define", "ty", 3), ("Get", "tx", 0), ("Copy", "", 0), ("Symbols", "t", 0)]     # (type names only: Symbols lists the type table)
 TABS_T = [{"k": [], "v": []}, {"k": ["tx"], "v": [4]}]
 PTAB = {"k": ["p"], "v": [9]}
 
@@ -160,7 +164,7 @@ def check_outcomes(ctx, binp, lines, tag, gated):
     if ctx.violations:
         return
     path = os.path.join(ctx.work, "envconc_outcomes.ndjson")
-    clean = [{"progs": l["progs"], "tab0": l["tab0"], "outcomes": [{k: o[k] for k in ("c", "p", "res")} for o in l["outcomes"]]} for l in lines if l["outcomes"]]
+    clean = [{"progs": unalias(l["progs"]), "tab0": l["tab0"], "outcomes": [{k: o[k] for k in ("c", "p", "res")} for o in l["outcomes"]]} for l in lines if l["outcomes"]]
     vlib.write_ndjson(path, [{"parent_tab": PTAB}] + clean)
     r = vlib.run_tlc(ctx, "Trace_AnkoEnvConc", "Trace_AnkoEnvConc.cfg", workers=1, timeout=3000, copy=[path], want_lines=False)
     if r.error:
@@ -175,7 +179,7 @@ def check_outcomes(ctx, binp, lines, tag, gated):
         ctx.cov["traces_validated_against_impl"] += nout
         return
     bad = clean[reached - 2]
-    srcline = [l for l in lines if l["progs"] == bad["progs"] and l["tab0"] == bad["tab0"] and l["outcomes"]][0]
+    srcline = [l for l in lines if unalias(l["progs"]) == bad["progs"] and l["tab0"] == bad["tab0"] and l["outcomes"]][0]
     # find the offending outcome(s): validate them one by one
     for o in srcline["outcomes"]:
         one = os.path.join(ctx.work, "envconc_outcomes.ndjson")
@@ -265,12 +269,16 @@ def run(ctx):
     if ctx.quick():
         cfgs = [("dfs2x2", dict(mode="all", procs=2, nops=2, alphabet=ops(ALPHA_FULL), init_tabs=TABS, parent_tab=PTAB, seed=ctx.seed)),
                 ("dfs2x2types", dict(mode="all", procs=2, nops=2, alphabet=ops(ALPHA_T), init_tabs=TABS_T, parent_tab=PTAB, seed=ctx.seed)),
-                ("dfs3x1types", dict(mode="all", procs=3, nops=1, alphabet=ops(ALPHA_T), init_tabs=TABS_T, parent_tab=PTAB, seed=ctx.seed))]
+                ("dfs3x1types", dict(mode="all", procs=3, nops=1, alphabet=ops(ALPHA_T), init_tabs=TABS_T, parent_tab=PTAB, seed=ctx.seed)),
+                ("dfs2x2alias", dict(mode="all", procs=2, nops=2, alphabet=ops(ALPHA_TZ), init_tabs=TABS_T, parent_tab=PTAB, seed=ctx.seed)),
+                ("dfs3x1alias", dict(mode="all", procs=3, nops=1, alphabet=ops(ALPHA_TZ), init_tabs=TABS_T, parent_tab=PTAB, seed=ctx.seed))]
     else:
         cfgs = [("dfs2x2", dict(mode="all", procs=2, nops=2, alphabet=ops(ALPHA_FULL), init_tabs=TABS, parent_tab=PTAB, seed=ctx.seed)),
                 ("dfs3x1", dict(mode="all", procs=3, nops=1, alphabet=ops(ALPHA_FULL), init_tabs=TABS, parent_tab=PTAB, seed=ctx.seed)),
                 ("dfs2x2types", dict(mode="all", procs=2, nops=2, alphabet=ops(ALPHA_T), init_tabs=TABS_T, parent_tab=PTAB, seed=ctx.seed)),
                 ("dfs3x1types", dict(mode="all", procs=3, nops=1, alphabet=ops(ALPHA_T), init_tabs=TABS_T, parent_tab=PTAB, seed=ctx.seed)),
+                ("dfs2x2alias", dict(mode="all", procs=2, nops=2, alphabet=ops(ALPHA_TZ), init_tabs=TABS_T, parent_tab=PTAB, seed=ctx.seed)),
+                ("dfs3x1alias", dict(mode="all", procs=3, nops=1, alphabet=ops(ALPHA_TZ), init_tabs=TABS_T, parent_tab=PTAB, seed=ctx.seed)),
                 ("dfs2x3", dict(mode="sample", sample=1500, procs=2, nops=3, alphabet=ops(ALPHA_CORE), init_tabs=TABS, parent_tab=PTAB, seed=ctx.seed)),
                 ("dfs3x2", dict(mode="sample", sample=400, procs=3, nops=2, alphabet=ops(ALPHA_W), init_tabs=TABS, parent_tab=PTAB, seed=ctx.seed, max_sched=20000))]
     first = None
